@@ -2,6 +2,7 @@ package props
 
 import (
 	"fmt"
+	"google.golang.org/protobuf/proto"
 
 	"github.com/advancedclimatesystems/gonnx/onnx"
 	"gorgonia.org/tensor"
@@ -241,14 +242,30 @@ func c12Run(c *Ctx) {
 			c.Violation(sig, "[%s] %s | %s | expectation %s %s", path, trunc(v.Detail, 400), c.caseStr, exp.Kind, exp.Why)
 		}
 	}
-	// (a) onnx.TensorFromProto
-	judge("TensorFromProto", mon.Capture(nil, func() ([]tensor.Tensor, error) {
-		t, err := onnx.TensorFromProto(tp)
-		if err != nil {
-			return nil, err
+	// (a) onnx.TensorFromProto, twice: decoding must not change the message, and the
+	// second decoding must give what the first gave
+	snapshot := proto.Clone(tp).(*onnx.TensorProto)
+	decode := func() mon.Outcome {
+		return mon.Capture(nil, func() ([]tensor.Tensor, error) {
+			t, err := onnx.TensorFromProto(tp)
+			if err != nil {
+				return nil, err
+			}
+			return []tensor.Tensor{t}, nil
+		})
+	}
+	first := decode()
+	judge("TensorFromProto", first)
+	if !proto.Equal(snapshot, tp) {
+		c.Violation("decode:message-modified", "TensorFromProto changed the TensorProto it decoded | %s", c.caseStr)
+	}
+	if c.Idx%4 == 2 {
+		second := decode()
+		c.Eval(1)
+		if d := diffOutcomes(first, second); d != "" {
+			c.Violation("decode:second-decoding-differs", "decoding the same message again: %s | %s", d, c.caseStr)
 		}
-		return []tensor.Tensor{t}, nil
-	}))
+	}
 	// (b) initializer of a node-less model returned as graph output
 	if c.Idx%2 == 0 {
 		g := &mon.Graph{Outputs: []mon.GInput{{Name: "w", NoType: true}}}
